@@ -54,8 +54,14 @@ type c14Calib struct {
 var c14cal c14Calib
 
 const (
-	c14StepCeil  = 4000.0  // ceiling of the calibrated step budget per byte (after the x10)
-	c14AllocCeil = 40000.0 // ceiling of the calibrated allocation budget per byte (after the x10)
+	c14StepCeil  = 20000.0  // ceiling of the calibrated step budget per byte (after the multiplier)
+	c14AllocCeil = 100000.0 // ceiling of the calibrated allocation budget per byte (after the multiplier)
+	// Headroom over the densest undamaged stream. 10x proved too tight: a damaged stream can turn a long
+	// string into thousands of one-byte values (each an object instance or an empty typed list) and
+	// legitimately cost ~10x more per byte than any encoder-produced stream. Real run-aways (endless
+	// loops, loops to a declared count, exponential walks) exceed any linear budget by orders of magnitude.
+	c14StepMult  = 100.0
+	c14AllocMult = 30.0
 	c14AllocBase = 1 << 20
 )
 
@@ -125,7 +131,7 @@ func c14Calibrate() {
 }
 
 func c14StepBudget(n int) uint64 {
-	b := 10 * c14cal.stepRatio
+	b := c14StepMult * c14cal.stepRatio
 	if b > c14StepCeil {
 		b = c14StepCeil
 	}
@@ -133,7 +139,7 @@ func c14StepBudget(n int) uint64 {
 }
 
 func c14AllocBudget(n int) uint64 {
-	b := 10 * c14cal.allocRatio
+	b := c14AllocMult * c14cal.allocRatio
 	if b > c14AllocCeil {
 		b = c14AllocCeil
 	}
@@ -201,6 +207,7 @@ type c14Result struct {
 	readsAfter         int
 	errs               int
 	values             int
+	allocNoise         bool
 }
 
 // innermostLibFrame returns the innermost gohessian function on the current (panicking) stack.
@@ -222,7 +229,24 @@ func innermostLibFrame() string {
 	return "outside-library"
 }
 
+// c14Decode measures one decode; an allocation verdict is only kept when a second, warm measurement of
+// the same decode exceeds the budget too (first-use caches of reflect / fmt are process noise).
 func c14Decode(entry int, data []byte, tail error, tm map[string]reflect.Type, nvals int, bufSize int, strict bool) (res c14Result) {
+	res = c14DecodeOnce(entry, data, tail, tm, nvals, bufSize, strict)
+	if res.class == "c14/alloc" {
+		again := c14DecodeOnce(entry, data, tail, tm, nvals, bufSize, strict)
+		if again.class != "c14/alloc" {
+			again.allocNoise = true
+			return again
+		}
+		if again.alloc < res.alloc {
+			return again
+		}
+	}
+	return res
+}
+
+func c14DecodeOnce(entry int, data []byte, tail error, tm map[string]reflect.Type, nvals int, bufSize int, strict bool) (res c14Result) {
 	budget := c14StepBudget(len(data))
 	if strict {
 		budget *= 2
@@ -315,7 +339,7 @@ func c14Decode(entry int, data []byte, tail error, tm map[string]reflect.Type, n
 		site := clock.exSite
 		res.class = "c14/runaway"
 		res.key = siteFunc(site)
-		res.detail = fmt.Sprintf("more than %d library statements executed for %d input bytes (budget = 10 x the largest ratio on undamaged streams, %.1f steps/byte); last statement at %s",
+		res.detail = fmt.Sprintf("more than %d library statements executed for %d input bytes (budget = 100 x the largest ratio on undamaged streams, %.1f steps/byte); last statement at %s",
 			budget, len(data), c14cal.stepRatio, siteString(site))
 	}
 	ab := c14AllocBudget(len(data))
@@ -325,7 +349,7 @@ func c14Decode(entry int, data []byte, tail error, tm map[string]reflect.Type, n
 	if res.alloc > ab && res.class == "" {
 		res.class = "c14/alloc"
 		res.key = "heap"
-		res.detail = fmt.Sprintf("%d bytes allocated while decoding %d input bytes (budget %d = 1 MiB + 10 x the largest ratio on undamaged streams, %.0f B/byte)",
+		res.detail = fmt.Sprintf("%d bytes allocated while decoding %d input bytes (budget %d = 1 MiB + 30 x the largest ratio on undamaged streams, %.0f B/byte)",
 			res.alloc, len(data), ab, c14cal.allocRatio)
 	}
 	hessian.VfStep = clockStep
@@ -481,6 +505,9 @@ func runC14(ch *Choices, cfg *RunCfg) (o *Outcome) {
 		}
 		if r.errs > 0 {
 			o.Probes["damaged stream answered with an error"]++
+		}
+		if r.allocNoise {
+			o.Probes["allocation over budget on the first measurement only (process noise, not reported)"]++
 		}
 		if r.errs > 1 {
 			o.Probes["read after an erroring streaming read returned"]++
